@@ -105,6 +105,14 @@ def run_one(pid, tier, seed, spec, outdir):
 
 
 def main(argv=None):
+    os.environ["VERIF_RUN_ID"] = "%d-%d" % (os.getpid(), int(time.time()))
+    try:
+        return _main(argv)
+    finally:
+        env.clean_run_root()
+
+
+def _main(argv=None):
     ap = argparse.ArgumentParser()
     ap.add_argument("pid")
     ap.add_argument("tier", nargs="?", default=os.environ.get("VERIF_TIER", "quick"))
